@@ -11,7 +11,7 @@ LAYOUT = st.sampled_from(['C', 'C', 'F', 'T'])
 
 @st.composite
 def tt_spec(draw, min_order=1, max_order=4, kind=None, max_dim=3, max_rank=3, cplx=None, dims=None, cols=None,
-            rows=None, entries='normal', layouts=True):
+            rows=None, entries='normal', layouts=True, int_dtype=False):
     """shape/rank/dtype specification of a random tensor train (see build.make_tt)"""
     if rows is not None:
         d = len(rows)
@@ -35,6 +35,8 @@ def tt_spec(draw, min_order=1, max_order=4, kind=None, max_dim=3, max_rank=3, cp
     c = draw(st.booleans()) if cplx is None else cplx
     spec = {'rows': list(rows), 'cols': list(cols), 'ranks': ranks, 'cplx': c, 'seed': draw(SEED), 'entries': entries}
     spec['layout'] = draw(LAYOUT) if layouts else 'C'
+    if not c and int_dtype and draw(st.sampled_from([False, False, False, True])):
+        spec['int_dtype'] = True
     return spec
 
 
@@ -57,6 +59,8 @@ def spec_labels(spec, prefix=''):
         lab.add(prefix + 'complex')
     if spec.get('layout', 'C') != 'C':
         lab.add(prefix + 'layout' + spec['layout'])
+    if spec.get('int_dtype'):
+        lab.add(prefix + 'int_dtype')
     from vt.dense import max_ranks
     mr = max_ranks(spec['rows'], spec['cols'])
     if any(r > m for r, m in zip(spec['ranks'], mr)):
